@@ -34,8 +34,8 @@ def tokenize(text):
             k = "blank"
         elif t[0] == '"' or t[0] == "'":
             k = "other"
-        elif re.match(r'[A-Za-z]', t) and not t.upper().startswith("&"):
-            k = "word"
+        elif re.match(r'[A-Za-z]', t) or re.match(r'&[HhOo][0-9A-Fa-f]+$', t):
+            k = "word"          # keywords, identifiers, and hexadecimal / octal literals (radix letter and digits a-f)
         elif t == ":":
             k = "colon"
         else:
@@ -107,8 +107,10 @@ def materialise(toks, sites, eolkind, rng):
                 t = " : "
             elif mv == "blankline":
                 t = eol + eol
+            elif mv == "trailblank":
+                t = " " + eol
             elif mv == "comment":
-                t = " ' note" + eol
+                t = " ' note " + "n" * 44 + eol        # longer than any name may be
             else:
                 t = eol
         elif k == "colon" and mv == "split":
